@@ -2,6 +2,7 @@ package main
 
 import (
 	"fmt"
+	"go/token"
 	"go/types"
 
 	"golang.org/x/tools/go/ssa"
@@ -214,6 +215,7 @@ func runC17(r *Report) {
 			r.Bad(rd, key, calls[0].Pos(), "the string flavour alters the arguments or the error of the byte flavour")
 		}
 	}
+	ruleLogBeforeApply(r)
 	// the string flavour's own validation returns the same sentinel
 	if fn := p.Func("simpledb.DB.Put"); fn != nil {
 		key := rd + "/simpledb.DB.Put/same-sentinel"
@@ -271,6 +273,27 @@ func lenTestsOn(fn *ssa.Function, p *ssa.Parameter) (zero, nonZero []Edge) {
 		if zi, ok := lenZeroTest(iff.Cond, isP); ok {
 			zero = append(zero, Edge{b, b.Succs[zi]})
 			nonZero = append(nonZero, Edge{b, b.Succs[1-zi]})
+			continue
+		}
+		// a validation helper: bool function of the arguments built from len(...) tests
+		if c, ok := iff.Cond.(*ssa.Call); ok {
+			if sc := c.Call.StaticCallee(); sc != nil && inModule(sc) && sc.Blocks != nil {
+				for i, a := range c.Call.Args {
+					if !isP(a) || i >= len(sc.Params) {
+						continue
+					}
+					whenEmpty, ok1 := evalLenPredicate(sc, i, true)
+					whenFull, ok2 := evalLenPredicate(sc, i, false)
+					if ok1 && ok2 && whenEmpty != whenFull {
+						zi := 1
+						if whenEmpty {
+							zi = 0
+						}
+						zero = append(zero, Edge{b, b.Succs[zi]})
+						nonZero = append(nonZero, Edge{b, b.Succs[1-zi]})
+					}
+				}
+			}
 		}
 	}
 	return
@@ -345,4 +368,83 @@ func condParams(c ssa.Value, fn *ssa.Function) ([]*ssa.Parameter, bool) {
 	}
 	walk(c)
 	return ps, only
+}
+
+// evalLenPredicate abstractly runs a bool helper whose branches are len(param)==0 style tests:
+// parameter `idx` is empty iff `empty`, all other parameters are non-empty. Returns the helper's result.
+func evalLenPredicate(f *ssa.Function, idx int, empty bool) (bool, bool) {
+	if f.Signature.Results().Len() != 1 {
+		return false, false
+	}
+	isEmpty := func(pa *ssa.Parameter) bool {
+		for i, q := range f.Params {
+			if q == pa {
+				return i == idx && empty
+			}
+		}
+		return false
+	}
+	evalCond := func(c ssa.Value, vals map[ssa.Value]bool) (bool, bool) {
+		if v, ok := vals[c]; ok {
+			return v, true
+		}
+		if b, ok := constBool(c); ok {
+			return b, true
+		}
+		for _, pa := range f.Params {
+			pp := pa
+			if zi, ok := lenZeroTest(c, func(v ssa.Value) bool { return paramOrigin(v) == pp }); ok {
+				// condition true on successor 0; zero-length takes successor zi
+				if isEmpty(pp) {
+					return zi == 0, true
+				}
+				return zi != 0, true
+			}
+		}
+		return false, false
+	}
+	vals := map[ssa.Value]bool{}
+	b := f.Blocks[0]
+	var pred *ssa.BasicBlock
+	for steps := 0; steps < 100; steps++ {
+		for _, ins := range b.Instrs {
+			switch x := ins.(type) {
+			case *ssa.Phi:
+				for i, p := range b.Preds {
+					if p == pred {
+						if v, ok := evalCond(x.Edges[i], vals); ok {
+							vals[x] = v
+						}
+					}
+				}
+			case *ssa.BinOp:
+				if v, ok := evalCond(x, vals); ok {
+					vals[x] = v
+				}
+			case *ssa.UnOp:
+				if x.Op == token.NOT {
+					if v, ok := evalCond(x.X, vals); ok {
+						vals[x] = !v
+					}
+				}
+			case *ssa.If:
+				v, ok := evalCond(x.Cond, vals)
+				if !ok {
+					return false, false
+				}
+				pred = b
+				if v {
+					b = b.Succs[0]
+				} else {
+					b = b.Succs[1]
+				}
+			case *ssa.Jump:
+				pred = b
+				b = b.Succs[0]
+			case *ssa.Return:
+				return evalCond(x.Results[0], vals)
+			}
+		}
+	}
+	return false, false
 }
